@@ -790,12 +790,14 @@ MANIFEST = {
     'level_text': 'Proof (Coq, unbounded in template shape, mappings, volatile set and update history) for the model of '
                   'instantiation / update / merge / cleanup on program trees: a count is marked volatile iff it depends '
                   'on a volatile parameter through the enclosing mappings, and updating equals re-instantiating; '
-                  'Tabor table part proved for the table update step and tied to the code by an exact correspondence '
-                  'check (tables, recorded positions, modification maps) incl. a semantic play-back specification.',
+                  'flatten_and_balance commutes with updates when no volatile loop is unrolled.  Tabor part partial: only '
+                  'shape preservation / soundness of the modification map is proved; "tables after update = fresh '
+                  'compilation, map = exactly the changed entries" is an executable specification checked on every '
+                  'generated case against the real TaborProgram (7 known findings where the unchanged code loses volatility).',
     'level_note': 'Trusted: Coq kernel, sympy (expression evaluation / structural equality), harness observation of '
                   'Loop trees and Tabor tables. flatten_and_balance / prepare_program_for_advanced_sequence_mode are '
-                  'modelled and compared by correspondence, their volatility preservation is not proved (known findings '
-                  'list the branches that lose volatility).',
+                  'modelled and compared by correspondence; prepare_program_for_advanced_sequence_mode has no '
+                  'preservation theorem (known findings list the branches that lose volatility).',
     'technique': 'Coq proof over a hand-written model + exact correspondence check against qupulse',
     'design_ref': 'DESIGN.md §5 C15',
 }
